@@ -31,6 +31,7 @@ type CaseC15 struct {
 	Limit      int       `json:"limit"`
 	ViaMaxHist bool      `json:"via_max_history"`
 	RefCount   int       `json:"ref_count,omitempty"`
+	More       []int     `json:"more,omitempty"` // further limits, each loaded by a fresh instance on the same disk afterwards
 }
 
 func genC15(rt *rapid.T) CaseC15 {
@@ -51,6 +52,9 @@ func genC15(rt *rapid.T) CaseC15 {
 	}
 	c.Limit = rapid.OneOf(rapid.IntRange(-3, 0), rapid.IntRange(1, 12), rapid.IntRange(1, 12), rapid.IntRange(13, 60)).Draw(rt, "limit")
 	c.ViaMaxHist = rapid.Bool().Draw(rt, "viaMaxHistory")
+	if rapid.Bool().Draw(rt, "again") {
+		c.More = rapid.SliceOfN(rapid.OneOf(rapid.IntRange(-1, 0), rapid.IntRange(1, 12), rapid.IntRange(13, 60)), 1, 2).Draw(rt, "more")
+	}
 	return c
 }
 
@@ -147,103 +151,109 @@ func execC15(c CaseC15) *Outcome {
 	}
 
 	// restart peer 0 alone: the other peers are cut off, its node serves local blocks only
+	// the persisted log is loaded once per limit, each time by a fresh instance on the same disk: loading must
+	// leave what is persisted as it was
 	p0 := cl.W.Peers[0]
-	p0.StopInstance()
-	for j := 1; j <= c.Others; j++ {
-		cl.W.Cut(0, j)
-	}
-	p0.Offline = true
-	db, err := p0.StartInstance(ctx)
-	if err != nil {
-		return fail("harness: restart: %v", err)
-	}
-	limit := c.Limit
-	callArg := limit
-	if c.ViaMaxHist {
-		mh := limit
-		db.RegisterStoreType("eventlog", func(api coreiface.CoreAPI, id *identityprovider.Identity, a address.Address, opts *iface.NewStoreOptions) (iface.Store, error) {
-			opts.MaxHistory = &mh
-			return eventlogstore.NewOrbitDBEventLogStore(api, id, a, opts)
-		})
-		callArg = -1
-		if limit%2 == 0 {
-			callArg = 0
+	for stage, limit := range append([]int{c.Limit}, c.More...) {
+		p0.StopInstance()
+		for j := 1; j <= c.Others; j++ {
+			cl.W.Cut(0, j)
 		}
-	}
-	s, err := db.Open(ctx, cl.Addr, &orbitdb.CreateDBOptions{Replicate: &no})
-	if err != nil {
-		return fail("harness: reopen: %v", err)
-	}
-	cached := 0
-	for _, k := range []string{"_localHeads", "_remoteHeads"} {
-		if b, err := p0.Disk.Store(world.CachePath("/verif-disk", s.Address())).Get(ctx, dsKey(k)); err == nil && len(b) > 2 {
-			cached += countJSONArray(b)
+		p0.Offline = true
+		db, err := p0.StartInstance(ctx)
+		if err != nil {
+			return fail("harness: restart: %v", err)
 		}
-	}
-	lctx, cancel := context.WithTimeout(ctx, 60*time.Second)
-	defer cancel()
-	if err := s.Load(lctx, callArg); err != nil {
-		if lctx.Err() != nil {
-			o.Inconclusive = true
-			return o
+		callArg := limit
+		if c.ViaMaxHist {
+			mh := limit
+			db.RegisterStoreType("eventlog", func(api coreiface.CoreAPI, id *identityprovider.Identity, a address.Address, opts *iface.NewStoreOptions) (iface.Store, error) {
+				opts.MaxHistory = &mh
+				return eventlogstore.NewOrbitDBEventLogStore(api, id, a, opts)
+			})
+			callArg = -1
+			if limit%2 == 0 {
+				callArg = 0
+			}
 		}
-		return fail("Load(%d)%s on a log of %d entries failed: %v", callArg, mhNote(c), total, err)
-	}
-	minus1 := -1
-	got, err := listHashes(s.(iface.EventLogStore), &iface.StreamOptions{Amount: &minus1})
-	if err != nil {
-		return fail("List after Load failed: %v", err)
-	}
-	want := total
-	if limit > 0 && limit < total {
-		want = limit
-	}
-	desc := fmt.Sprintf("Load(%d)%s on a persisted log of %d entries (%d cached heads)", callArg, mhNote(c), total, cached)
-	if len(got) != want {
-		return fail("%s lists %d entries, expected %d", desc, len(got), want)
-	}
-	if !isSubsequence(got, full) {
-		return fail("%s lists entries out of log order: %v vs full %v", desc, shortAll(got), shortAll(full))
-	}
-	if want > 0 && got[len(got)-1] != full[total-1] {
-		return fail("%s does not include the newest entry", desc)
-	}
-	if singleWriter || limit <= 0 {
-		if !eqStrings(got, full[total-want:]) {
-			return fail("%s does not list exactly the %d most recent entries", desc, want)
+		s, err := db.Open(ctx, cl.Addr, &orbitdb.CreateDBOptions{Replicate: &no})
+		if err != nil {
+			return fail("harness: reopen: %v", err)
 		}
-	}
-	if vals := world.Hashes(s); !eqStrings(vals, got) {
-		return fail("%s: OpLog().Values() and List(-1) disagree", desc)
-	}
-	o.NonTrivial = limit >= total || limit <= 0 || cached >= 2
-	if limit >= total {
-		o.Labels = append(o.Labels, "limit>=total")
-	}
-	if limit <= 0 {
-		o.Labels = append(o.Labels, "limit<=0")
-	}
-	if cached >= 2 {
-		o.Labels = append(o.Labels, "multi-head-cache")
+		cached := 0
+		for _, k := range []string{"_localHeads", "_remoteHeads"} {
+			if b, err := p0.Disk.Store(world.CachePath("/verif-disk", s.Address())).Get(ctx, dsKey(k)); err == nil && len(b) > 2 {
+				cached += countJSONArray(b)
+			}
+		}
+		lctx, cancel := context.WithTimeout(ctx, 60*time.Second)
+		defer cancel()
+		if err := s.Load(lctx, callArg); err != nil {
+			if lctx.Err() != nil {
+				o.Inconclusive = true
+				return o
+			}
+			return fail("Load(%d)%s on a log of %d entries failed: %v", callArg, mhNoteL(c, limit), total, err)
+		}
+		minus1 := -1
+		got, err := listHashes(s.(iface.EventLogStore), &iface.StreamOptions{Amount: &minus1})
+		if err != nil {
+			return fail("List after Load failed: %v", err)
+		}
+		want := total
 		if limit > 0 && limit < total {
-			o.Labels = append(o.Labels, "multi-head-cache+limit-cuts")
+			want = limit
 		}
-	}
-	if limit > 0 && limit < total {
-		o.Labels = append(o.Labels, "limit-cuts")
-	}
-	if merged {
-		o.Labels = append(o.Labels, "replicated-entries")
-	}
-	if c.ViaMaxHist {
-		o.Labels = append(o.Labels, "via-max-history")
+		desc := fmt.Sprintf("Load(%d)%s on a persisted log of %d entries (%d cached heads)", callArg, mhNoteL(c, limit), total, cached)
+		if len(got) != want {
+			return fail("%s lists %d entries, expected %d", desc, len(got), want)
+		}
+		if !isSubsequence(got, full) {
+			return fail("%s lists entries out of log order: %v vs full %v", desc, shortAll(got), shortAll(full))
+		}
+		if want > 0 && got[len(got)-1] != full[total-1] {
+			return fail("%s does not include the newest entry", desc)
+		}
+		if singleWriter || limit <= 0 {
+			if !eqStrings(got, full[total-want:]) {
+				return fail("%s does not list exactly the %d most recent entries", desc, want)
+			}
+		}
+		if vals := world.Hashes(s); !eqStrings(vals, got) {
+			return fail("%s: OpLog().Values() and List(-1) disagree", desc)
+		}
+		o.NonTrivial = o.NonTrivial || limit >= total || limit <= 0 || cached >= 2
+		if limit >= total {
+			o.Labels = append(o.Labels, "limit>=total")
+		}
+		if limit <= 0 {
+			o.Labels = append(o.Labels, "limit<=0")
+		}
+		if cached >= 2 {
+			o.Labels = append(o.Labels, "multi-head-cache")
+			if limit > 0 && limit < total {
+				o.Labels = append(o.Labels, "multi-head-cache+limit-cuts")
+			}
+		}
+		if limit > 0 && limit < total {
+			o.Labels = append(o.Labels, "limit-cuts")
+		}
+		if merged {
+			o.Labels = append(o.Labels, "replicated-entries")
+		}
+		if c.ViaMaxHist {
+			o.Labels = append(o.Labels, "via-max-history")
+		}
+		if stage > 0 {
+			o.Labels = append(o.Labels, "loaded-again-after-an-earlier-load")
+		}
 	}
 	return o
 }
 
-func mhNote(c CaseC15) string {
+func mhNoteL(c CaseC15, limit int) string {
 	if c.ViaMaxHist {
-		return fmt.Sprintf(" with MaxHistory=%d", c.Limit)
+		return fmt.Sprintf(" with MaxHistory=%d", limit)
 	}
 	return ""
 }
